@@ -129,9 +129,16 @@ fn scenario(saturated: bool) -> ScenFn {
             };
             *d2.lock().unwrap() = Some(r);
         });
-        // the caller disappears after k polls of its task (k = MAX_K: it never disappears)
+        // the caller disappears after k polls of its task (k = MAX_K: it never disappears) - or, second mode, k scheduler
+        // steps (of any task) after its first poll: the server may be anywhere in the middle of the request by then
+        let by_steps = k > 0 && k < MAX_K && cx.choose("abort-instant-counted-in", 2) == 1;
         if k < MAX_K {
-            tryv!(cx.quiesce_until_polls("client:1-victim", k as u32).await);
+            if by_steps {
+                tryv!(cx.quiesce_until_polls("client:1-victim", 1).await);
+                tryv!(cx.run_steps(k as u32).await);
+            } else {
+                tryv!(cx.quiesce_until_polls("client:1-victim", k as u32).await);
+            }
             cx.abort_now(&h).await;
         }
         tryv!(cx.quiesce().await);
